@@ -264,6 +264,16 @@ def compile_once(repo, src, workdir, cfg, pert, _prior=False):
         if pert.get('index', 0) == 0:
             # the unperturbed control must work, else nothing can be compared
             raise K.HarnessError('tzcompiler failed (cfg %s, perturbation %s):\n%s' % (cfg, pert, errtext[-2000:]))
+        # Warnings turned into errors make the interpreter itself stricter: a compiler that merely stops with a
+        # traceback then has produced no files rather than different ones. If the same perturbation without that one
+        # variable compiles, the run is dropped from the comparison (and counted).
+        wbit = [i for i, (k, v) in enumerate(ENV_EXTRA) if k == 'PYTHONWARNINGS' and v.startswith('error')]
+        if wbit and (pert.get('env_extra', 0) >> wbit[0]) & 1 and not _prior:
+            p2 = dict(pert, env_extra=pert['env_extra'] & ~(1 << wbit[0]))
+            shutil.rmtree(workdir, ignore_errors=True)
+            files2 = compile_once(repo, src, workdir, cfg, p2)
+            if '<compiler exit status>' not in files2:
+                return {'<dropped: fails only with warnings as errors>': b''}
         # the same source and command line compile in the control and FAIL here: that is a difference in outcome, reported
         # like a difference in the files
         return {'<compiler exit status>': ('exit %d: %s' % (rc, errtext[-300:].replace('\n', ' | '))).encode()}
@@ -360,6 +370,10 @@ def run(prop, tier, verif_seed):
             results = list(ex.map(job, jobs))
         by_cfg = {}
         for c, p, files in results:
+            if '<dropped: fails only with warnings as errors>' in files:
+                stats['dropped_fail_under_warnings_as_errors'] = stats.get('dropped_fail_under_warnings_as_errors', 0) + 1
+                if p['index'] != 0:
+                    continue
             by_cfg.setdefault(c, []).append((p, files))
             stats['compilations'] += 1
             distinct.add((c, p['hashseed'] != 0, p['shim'], p['tz'], p['lang'], p['cwd_depth'], p['umask']))
@@ -445,6 +459,7 @@ def run(prop, tier, verif_seed):
             'files_compared': stats['files_compared'],
             'bytes_compared': stats['bytes_compared'],
             'files_equal_only_after_reason_canonicalisation': stats['raw_byte_differences_excused'],
+            'runs_dropped_because_the_compiler_stops_under_warnings_as_errors': stats.get('dropped_fail_under_warnings_as_errors', 0),
             'components': {'real': ['tools/tzcompiler.py', 'tools/tzdb/*', 'tools/zonedb/{argenerator,pygenerator,zonelistgenerator,bufestimator,zone_specifier}.py'],
                            'stub': ['detcompile/sitecustomize.py (clock, listing order, pid, random)',
                                     'TZ source reconstructed from zonedbx comments (not the original 2020d release)'],
